@@ -361,7 +361,9 @@ def check(chk):
                detail="guards %s" % sorted(g_.items()), construct=f.ident, text="completion test")
     for name in ("timer_complete", "device_removed_from_mode"):
         f = tm.methods.get(name)
-        ok = any(call_attr(c) == "stop" and src(c.func.value) == "self" for c in f.calls())
+        fcfg = f.cfg()
+        sn = [n.id for n, c in fcfg.calls_named("stop") if src(c.func.value) == "self"]
+        ok = bool(sn) and fcfg.must_pass(fcfg.entry.id, sn) is None
         chk.ob("FLAG-3", "Timer.%s stops the timer" % name, ok, f.where(), construct=f.ident, text=name + " stops")
     chk.floor("FLAG-3", 14)
 
@@ -417,6 +419,7 @@ def battery():
         M("create does not replace", TM, "        self._remove_system_timer()\n        self.timer = self.machine.clock.schedule_interval(", "        self.timer = self.machine.clock.schedule_interval(", "FLAG-3"),
         M("tick while paused", TM, "        if not self.running:\n            if self._debug:\n                self.debug_log(\"Timer is not running. Will remove.\")\n\n            self._remove_system_timer()\n            return\n", "", "FLAG-3"),
         M("completion off by one", TM, "                self.ticks >= self.end_value):", "                self.ticks > self.end_value):", "FLAG-3"),
+        M("timer unload stops only a running timer", TM, "        \"\"\"Stop this timer and also removes all the control events.\"\"\"\n        self.stop()", "        \"\"\"Stop this timer and also removes all the control events.\"\"\"\n        if self.running:\n            self.stop()", "FLAG-3"),
         M("mode stop keeps delays", "mpf/core/mode.py", "        self.delay.clear()\n\n        self.machine.events.post_queue(event='mode_' + self.name + '_stopping',", "        self.machine.events.post_queue(event='mode_' + self.name + '_stopping',", "DOM-26"),
         # twins
         M("twin: aug-assign grid", CK, "        self._last_call = self._last_call + self._interval", "        self._last_call += self._interval", None),
